@@ -150,10 +150,69 @@ let ops_c08 = [
   "bigint_to_bytes_clvm", (fun f -> "OK " ^ hex_of_bytes (bigint_to_bytes_clvm (z_of_str f.(1))));
 ]
 
+(* ---------------- C07 ---------------- *)
+let parse_rich (s : string) : rich =
+  let n = String.length s in
+  let st = ref [] in
+  let res = ref None in
+  let push v = (match !st with [] -> res := Some v | _ -> st := Some v :: !st) in
+  let i = ref 0 in
+  while !i < n do
+    (match s.[!i] with
+     | ' ' -> incr i
+     | '(' -> st := None :: !st; incr i
+     | ')' -> incr i;
+       (match !st with
+        | Some r :: Some l :: None :: rest -> st := rest; push (RCons (l, r))
+        | _ -> failwith "bad )")
+     | _ ->
+       let j = ref !i in
+       while !j < n && s.[!j] <> ' ' && s.[!j] <> '(' && s.[!j] <> ')' do incr j done;
+       let w = String.sub s !i (!j - !i) in
+       i := !j;
+       let tl k = String.sub w k (String.length w - k) in
+       push (match w.[0] with
+         | 'n' -> RNil
+         | 'i' -> RInt (z_of_str (tl 1))
+         | 'a' -> RAtom (bytes_of_hex (tl 1))
+         | 'q' -> RQuoted (n_of_int (int_of_string ("0x" ^ String.sub w 1 2)), bytes_of_hex (tl 4))
+         | _ -> failwith "bad rich token"))
+  done;
+  match !res with Some v -> v | None -> failwith "empty rich"
+
+let rec print_rich = function
+  | RNil -> "n"
+  | RInt z -> "i" ^ str_of_z z
+  | RQuoted (q, b) -> Printf.sprintf "q%02xx%s" (int_of_n q) (hex_of_bytes b)
+  | RAtom b -> "a" ^ hex_of_bytes b
+  | RCons (a, b) -> "(" ^ print_rich a ^ " " ^ print_rich b ^ ")"
+
+let rec print_hexp = function
+  | H1 b -> "(1 " ^ hex_of_bytes b ^ ")"
+  | H2 (l, r) -> "(2 " ^ print_hexp l ^ " " ^ print_hexp r ^ ")"
+
+let ops_c07 = [
+  "r_to_clvm", (fun f -> "OK " ^ print_val (to_clvm (f.(1) = "1") (parse_rich f.(2))));
+  "r_from_clvm", (fun f -> "OK " ^ print_rich (from_clvm (f.(1) = "1") (parse_val f.(2))));
+  "r_hash", (fun f -> "HEXP " ^ print_hexp (sha256tree_rich (f.(1) = "1") (parse_rich f.(2))));
+  "c_hash", (fun f -> "HEXP " ^ print_hexp (sha256tree_classic (parse_val f.(1))));
+  "clvmr_hash", (fun f -> "HEXP " ^ print_hexp (treehash (parse_val f.(1))));
+  "r_eq", (fun f -> if equal_to (parse_rich f.(1)) (parse_rich f.(2)) then "OK 1" else "OK 0");
+  "r_hashstream", (fun f ->
+     (* Vec<u8>::hash = write_length_prefix (usize, little endian 8 bytes) then the bytes *)
+     let b = Buffer.create 64 in
+     List.iter (fun v ->
+       let len = List.length v in
+       for k = 0 to 7 do Buffer.add_string b (Printf.sprintf "%02x" ((len lsr (8 * k)) land 255)) done;
+       Buffer.add_string b "fe";
+       Buffer.add_string b (hex_of_bytes v); Buffer.add_string b "fe") (hash_stream (parse_rich f.(1)));
+     "OK " ^ Buffer.contents b);
+]
+
 (*OPS-INSERT*)
 
 let all_ops : (string, string array -> string) Hashtbl.t = Hashtbl.create 64
-let () = List.iter (fun l -> List.iter (fun (k, v) -> Hashtbl.replace all_ops k v) l) [ops_c20; ops_c08 (*OPS-LIST*)]
+let () = List.iter (fun l -> List.iter (fun (k, v) -> Hashtbl.replace all_ops k v) l) [ops_c20; ops_c08; ops_c07 (*OPS-LIST*)]
 
 let dispatch (f : string array) : string =
   match Hashtbl.find_opt all_ops f.(0) with
